@@ -408,6 +408,11 @@ def run_property(prop, tier, seed):
     d = core.ensure_facts("default")
     facts = core.Facts(d)
     facts.check_floors()
+    if facts.alias_map:
+        rep.extra["anchor_aliases"] = facts.alias_map
+        for kind in ("types", "functions"):
+            for new, canon in sorted(facts.alias_map.get(kind, {}).items()):
+                print("note: %s is analysed as the renamed / moved %s (rules/aliases.py)" % (new, canon))
     PROPS[prop](facts, rep, tier)
 
     def runner(f2, r2, t2):
